@@ -112,7 +112,7 @@ pub fn gen(args: &Args) {
                 "n" => argv.push(format!("--end-date={}", d)),
                 _ => {}
             }
-            let res = std::process::Command::new(&bin).args(&argv).env("TZ", "UTC").current_dir(&wd).output();
+            let res = std::process::Command::new(&bin).args(&argv).env("TZ", "UTC").current_dir(&wd).output_t();
             let after = today();
             let exit = res.map(|o| o.status.code().unwrap_or(-9)).unwrap_or(-8);
             let keys: Vec<i64> = std::fs::read_to_string(&out).ok().and_then(|t| serde_json::from_str::<Table>(&t).ok())
